@@ -27,6 +27,8 @@ UNIT = {
          'ensures': [('post', 'r == self.s_file()')]},
         {'file': P + 'rawtoken.rs', 'item': 'impl DiagnosticLocation for RawToken :: fn raw_text', 'wrap': 'impl RawToken', 'fn': 'RawToken::raw_text', 'attrs': 'drop', 'ret': 'r'},
         {'file': P + 'token.rs', 'item': 'struct Token', 'attrs': 'drop'},
+        {'file': P + 'token.rs', 'item': 'impl Token :: fn new', 'wrap': 'impl Token', 'fn': 'Token::new', 'attrs': 'drop', 'ret': 'r',
+         'ensures': [('post', 'r.s_raw().s_pos() == pos && r.s_raw().s_file() == file')]},
         {'file': P + 'token.rs', 'item': 'impl DiagnosticLocation for Token :: fn range', 'wrap': 'impl Token', 'fn': 'Token::range', 'attrs': 'drop', 'ret': 'r',
          'ensures': [('post', 'r == self.s_raw().s_pos()')], 'rewrites': [(r'super::Range', 'Range', 1)]},
         {'file': P + 'token.rs', 'item': 'impl DiagnosticLocation for Token :: fn raw_text', 'wrap': 'impl Token', 'fn': 'Token::raw_text', 'attrs': 'drop', 'ret': 'r'},
@@ -38,12 +40,14 @@ UNIT = {
          'rewrites': [('lit', 'format!("{} {}", self.raw_token.raw_text(), item.raw_text())',
                        'verif_format_pair(self.raw_token.raw_text(), item.raw_text())', 1)],
          'ensures': [('stream', 'took_next(old(self).lexer.remaining(), final(self).lexer.remaining(), r)'),
+                     ('eof', 'old(self).lexer.remaining().len() == 0 ==> eof_error(old(self).raw_token, r)'),
                      ('range', 'match r { Ok(t) => accumulated(old(self).raw_token, final(self).raw_token, t), Err(_) => final(self).raw_token == old(self).raw_token }')]},
     ],
     'functions': [], 'obligations': [],
 }
 PROPS = {it['fn']: ['C09'] for it in UNIT['items'] if 'fn' in it}
-TEXTS = {('get_any', 'stream'): 'hands out exactly the next item of the token stream (UnexpectedEOF at its end) and consumes exactly that item',
+TEXTS = {('get_any', 'eof'): 'at the end of the token stream: UnexpectedEOF if no statement has been started, otherwise an error located on the part of the statement read so far',
+         ('get_any', 'stream'): 'hands out exactly the next item of the token stream (UnexpectedEOF at its end) and consumes exactly that item',
          ('get_any', 'range'): 'on Ok(t): the first token handed out becomes the accumulated raw token, every later token keeps its start (and file) and moves its end '
                               'to the end of t - so an instruction\'s range runs from its first to its last token; on Err the accumulator is unchanged',
          'post': 'returns exactly what its specification says'}
